@@ -433,10 +433,6 @@ func driveRoundTrip(c *driverCtx, prop string) error {
 	}
 	// dedicated minimal witnesses (one feature each, including every known finding)
 	for _, wt := range witnessCases() {
-		if prop == "C02" && (wt.name == "round-number-collections" || wt.name == "round-number-list" || wt.name == "large-payloads") {
-			// decoding payloads of tens of thousands of items in TLC takes the judge hours; the same files are judged by value under C01
-			continue
-		}
 		for k := 0; k < 3; k++ {
 			vals := wt.values(c)
 			// one big block; one record per block; small blocks
@@ -444,9 +440,9 @@ func driveRoundTrip(c *driverCtx, prop string) error {
 			runRoundTrip(c, prop, wt.rtCase, vals, cfg, "witness|"+wt.name)
 		}
 	}
-	// size sweep (C01 only: the byte-level judge of C02 decodes every item in TLC): lengths around every power of two
+	// size sweep: lengths around every power of two
 	// up to 2^17 for strings, byte strings, lists and maps, each length its own file with neighbours before and after
-	if prop == "C01" {
+	{
 		st := staticOf[WSweep]("WSweep")
 		var sizes []int
 		for k := 5; k <= 17; k++ {
